@@ -107,6 +107,8 @@ func (w *worker) runPath(maxDepth int) (outcome string) {
 		}
 	}()
 	c.maxDepth = maxDepth
+	// package initialisers of the harness's package and (transitively) of every Goit package it imports
+	x.callFunction(w.fn.Pkg.Func("init"), nil, nil)
 	x.callFunction(w.fn, nil, nil)
 	return "ok"
 }
